@@ -31,8 +31,10 @@ def build_cases(tier, seed):
         from engine import families as _f
 
         _CASES += [("int", c) for c in _f.prof_list(_f.rank_family(4), 2, (1, 2), _f.cands(4))[::8]]
+    # ballots with tied positions, for the rules that accept them (SNTV vs Plurality, default arguments, TopTwo)
+    _CASES += [("weak", c) for c in common.weak_profiles("quick")[:: (3 if tier == "quick" else 1)]]
     meta = {
-        "family": common.family_text(tier, extra4=False) + ("" if tier == "quick" else " + every 8th of Prof(Rank(4),2,{1,2})") + " x (IRV vs STV m=1; SNTV vs Plurality; SequentialRCV vs STV with a harness-written "
+        "family": common.family_text(tier, extra4=False) + " + tied ballots Prof(Weak(3),2,{1,2}) (every 3rd in quick) for SNTV/Plurality, default arguments and TopTwo" + ("" if tier == "quick" else " + every 8th of Prof(Rank(4),2,{1,2})") + " x (IRV vs STV m=1; SNTV vs Plurality; SequentialRCV vs STV with a harness-written "
                   "full-weight transfer; TopTwo vs reference composition; Alaska vs real Plurality stage + separately constructed real STV) "
                   "x all configurations x all RNG paths",
         "assumptions": ["aliases consume the same sequence of draws as their counterpart (compared under identical choice vectors)",
@@ -53,6 +55,8 @@ def case_json(i):
 def case_from_json(j):
     c = fam.case_from_json(j)
     tag = "int" if all(F(w).denominator == 1 for _, w in c[1]) else "rat"
+    if any(len(pos) > 1 for r, _ in c[1] for pos in r):
+        tag = "weak"
     return (tag, c)
 
 
@@ -161,7 +165,7 @@ def run_case(i, tier):
         for tb in common.TBS:
             kw = dict(m=m, tiebreak=tb)
             compare_alias(i, "SNTV", kw, E("SNTV", case, kw), E("Plurality", case, kw), cnt, out, "Plurality")
-    for q in ("droop", "hare"):
+    for q in (("droop", "hare") if tag != "weak" else ()):
         for tb in common.TBS:
             kw = dict(quota=q, tiebreak=tb)
             compare_alias(i, "IRV", kw, E("IRV", case, kw),
@@ -190,6 +194,8 @@ def run_case(i, tier):
     if n >= 2:
         defaults += [("TopTwo", dict(tiebreak=None)),
                      ("Alaska", dict(m_1=2, m_2=1, quota="droop", simultaneous=True, tiebreak=None, transfer="fractional"))]
+    if tag == "weak":
+        defaults = [d for d in defaults if d[0] in ("Plurality", "SNTV", "Borda", "CondoBorda", "TopTwo")]
     for rule, kw in defaults:
         compare_alias(i, rule + "(defaults)", kw, bare(rule), E(rule, case, kw), cnt, out, "the documented defaults spelled out")
     # ---- TopTwo ------------------------------------------------------------------------
@@ -213,7 +219,7 @@ def run_case(i, tier):
                 out["viols"].append(_viol("toptwo_composition", "TopTwo", kw, i,
                                           f"winner distribution {vkit.jsonable(got)} differs from the documented composition {vkit.jsonable(exp)}"))
     # ---- Alaska ---------------------------------------------------------------------
-    for m1 in range(1, n + 1):
+    for m1 in (range(1, n + 1) if tag != "weak" else ()):
         for m2 in range(1, m1 + 1):
             for q in ("droop", "hare"):
                 for sim in (True, False):
